@@ -21,8 +21,9 @@ DECIDES = ('T1: every attribute a node class drives through a tree phase is list
            '`item OP best` with the operands on CPython\'s sides and returns the same argument for EVERY outcome of the comparisons; '
            'INPLACE: the tree built by ExpandInplaceOperators for `target OP= rhs`, for every kind of target (name / subscript / attribute) and operand (name / expression, '
            'Python object / C typed): index operands and Python-object operand expressions are evaluated once and before rhs, operand expressions in source order, one load '
-           'before and one store after rhs, every temporary bound (the operand positions that FAIL on the unmodified tree - plain names and Python-object owners of an '
-           'attribute target, FINDING_1 - are checked by C01-INPLACE-PENDING, not registered); '
+           'before and one store after rhs, every temporary bound; Python-level lookups that own an attribute target (`a[i].x += v`) are evaluated once (ExprNode.result_in_temp() is a fact '
+           'of the operand kind); INPLACE-NAME: the operand positions that fail on the unmodified tree - the owner / container given as a plain NAME or as a C-level attribute path is read '
+           'again for the store - are reported per position and are the known finding K14; '
            'RESTORE: in every method of a tree visitor, an attribute of the visitor that is saved in a local and then changed is written back from that same local on every '
            'normal path out of the method; '
            'PARSEROLE: for every node constructor call of Parsing.py with role values held in locals (25 productions: conditional expression, binary / comparison / boolean '
@@ -68,6 +69,6 @@ MUTATIONS = [   # (file, single edit on a scratch copy, rule that reported it) â
 
 def run(ctx):
     from ..rules import gen, keyerr, sC01, pC01
-    # pC01.rule_inplace(ctx, pending=True) checks the operand positions of FINDING_1 (`a[i] += (a := x)`, `c[0].x += 1` evaluating c[0] twice)     # pending finding
+    # pC01.rule_inplace(ctx, pending=True) = C01-INPLACE-NAME: the owner NAME / C-level attribute path of an in-place target is read again for the store (known finding K14)
     return [tree.rule_T1(ctx), tree.rule_T2(ctx), tree.rule_V1_visit(ctx), tree.rule_V2(ctx)] + gen.label_rules(ctx) + [
-        keyerr.rule_keyerror_args(ctx), sC01.rule_unpack(ctx), pC01.rule_minmax(ctx), pC01.rule_inplace(ctx), pC01.rule_restore(ctx), pC01.rule_parserole(ctx), pC01.rule_skel(ctx)]
+        keyerr.rule_keyerror_args(ctx), sC01.rule_unpack(ctx), pC01.rule_minmax(ctx), pC01.rule_inplace(ctx), pC01.rule_inplace(ctx, pending=True), pC01.rule_restore(ctx), pC01.rule_parserole(ctx), pC01.rule_skel(ctx)]
